@@ -19,6 +19,7 @@ import Nsl.Model.WasmRange
 import Nsl.Model.IRType
 import Nsl.Model.ScalarCore
 import Nsl.Model.StorageCore
+import Nsl.Model.VectorCore
 import Nsl.Gen.Grammar
 /-!
 # Line-protocol driver: one request per line on stdin, one answer per line on stdout.
@@ -249,7 +250,8 @@ def handle (st : DState) (line : String) : DState × String :=
       | some m => "scalarcore=" ++ (if decide (Core.ScalarCore m) then "yes" else "no") ++
                   " storagecore=" ++ (if decide (Core.StorageCore m) then "yes" else "no") ++
                   " noshadow=" ++ (if decide (Core.NoShadow m) then "yes" else "no") ++
-                  " callsresolve=" ++ (if Core.callsResolve m then "yes" else "no")
+                  " callsresolve=" ++ (if Core.callsResolve m then "yes" else "no") ++
+                  " vectorcore=" ++ (if decide (Core.VectorCore m) then "yes" else "no")
       | none => "error")
   | ["wfchecks"] => (st, match st.ir with
       -- the structural sufficient condition of C14 (blockLocal, defsDistinct, labelsDistinct, targetsOK, callsOK)
